@@ -297,6 +297,55 @@ def run(ctx, out):
                 "model's batching filter; (b) library copies (probe linked against libxcp) of generated trees with a recording "
                 "client updater, the real ChannelUpdater, and a wrapper logging the send order; both drivers, workers 1-8, random "
                 "thread holds, single injected faults (data calls — also LATE in the segment walk of a sparse file —, and symlink / mknod of trees with links and special files); updates are written to fd 9 so the supervisor orders them with the data "
-                "calls. non-trivial = >=2 Copied sends / tree with >=2 non-empty files; distinct by input")
+                "calls; (c) trees of thousands of files read by a client that drains the receiver only after copy() returned. non-trivial = >=2 Copied sends / tree with >=2 non-empty files; distinct by input")
     run_channel_r0(ctx, out)
     run_copies(ctx, out)
+    run_wide(ctx, out)
+
+
+def run_wide(ctx, out):
+    """VERY WIDE trees (thousands of files: thousands of updates outstanding at once) and a client that reads the stream only
+    AFTER copy() returned — `the stream ends once the copy call has finished` for every tree and every client."""
+    import subprocess
+    rng = ctx.rng
+    quick = ctx.tier == "quick"
+    d0 = ctx.work.fresh("c12wide")
+    nfiles = 5000 if quick else 12000
+    src = os.path.join(d0, "src")
+    total = 0
+    for i in range(nfiles):
+        sub = os.path.join(src, "d%02d" % (i % 8))
+        if i < 8:
+            os.makedirs(sub)
+        n = 1 + (i * 7) % 23
+        with open(os.path.join(sub, "f%05d" % i), "wb") as f:
+            f.write(b"w" * n)
+        total += n
+    for driver in ("parfile", "parblock"):
+        for upd in ("chanlate", "chan"):
+            dst = os.path.join(d0, "dst_%s_%s" % (driver, upd))
+            argv = [ctx.bins["probe"], "copy", driver, str(rng.choice([2, 4])), "65536", upd, "--reflink=never", "--", src, dst]
+            try:
+                r = subprocess.run(argv, cwd=d0, capture_output=True, text=True, timeout=120, env=dict(os.environ, RUST_BACKTRACE="0"))
+                stdout, timed_out = r.stdout, False
+            except subprocess.TimeoutExpired as ex:
+                stdout, timed_out = (ex.stdout or b"").decode("utf-8", "replace") if isinstance(ex.stdout, bytes) else (ex.stdout or ""), True
+            out.case(("wide", driver, upd, nfiles), True)
+            out.count("wide_tree_" + upd)
+            rep = dict(kind="wide tree", files=nfiles, total_bytes=total, driver=driver, updater=upd, argv=argv,
+                       client="reads the receiver after copy() returned" if upd == "chanlate" else "reads while copy() runs")
+            if timed_out:
+                out.violation("copy() of a tree of %d files did not return / the update stream did not end within 120 s (%s)"
+                              % (nfiles, rep["client"]), rep)
+            elif "RET ok" not in stdout or "CLOSED" not in stdout:
+                out.violation("copy() of a wide tree: %s" % (stdout[-200:] or "no result"), rep)
+            elif upd == "chanlate":
+                summ = next((l for l in stdout.split("\n") if l.startswith("SUMMARY")), "")
+                w = summ.split()
+                got = dict(zip(w[1::2], w[2::2]))
+                # (Copied updates are batched up to the block size: the stream may report LESS than was transferred, never more)
+                if got.get("size_sum") != str(total) or got.get("sizes") != str(nfiles) or int(got.get("copied", "0")) > total or got.get("errors") != "0":
+                    out.violation("wide tree: the updates read after the call do not account for the copy: %s (expected %d files, %d bytes)"
+                                  % (summ, nfiles, total), rep)
+            shutil.rmtree(dst, ignore_errors=True)
+    shutil.rmtree(d0, ignore_errors=True)
